@@ -755,6 +755,7 @@ func (ndb *nodeDB) deleteVersionsTo(toVersion int64) error {
 		if err := ndb.deleteVersion(version, rootkeyCache); err != nil {
 			return err
 		}
+		verifYield("deleteVersionsTo:after-deleteVersion")
 		ndb.resetFirstVersion(version + 1)
 	}
 
